@@ -40,6 +40,8 @@ type Case struct {
 	// the tree, "empty" = an empty directory, "file" = a regular file, "link" = a symbolic link to the directory holding the
 	// tree (OS backend), "missing" = nothing. An invalid pattern is rejected whatever is there.
 	Root string `json:"root,omitempty"`
+	// Arch (zip only): base name of the archive to write (default Z.zip): it may well be a name that also occurs in the tree
+	Arch string `json:"archive_name,omitempty"`
 	// AssertCross disables the by-construction exclusion of known finding C08-R6 (only set by its replay)
 	AssertCross bool `json:"assert_cross_separator,omitempty"`
 }
@@ -148,6 +150,12 @@ func genCase(t *rapid.T) Case {
 		blank := rapid.SampledFrom([]string{"", " ", "  "}).Draw(t, "blank-pattern")
 		c.Patterns = append(c.Patterns[:at], append([]string{blank}, c.Patterns[at:]...)...)
 	}
+	if c.Op == "zip" && rapid.Bool().Draw(t, "archive-named-like-an-entry") {
+		c.Arch = genName(t, "archive-name")
+		if len(c.Tree) > 0 && rapid.Bool().Draw(t, "same-as-an-entry") {
+			c.Arch = path.Base(c.Tree[rapid.IntRange(0, len(c.Tree)-1).Draw(t, "which-entry")].Path)
+		}
+	}
 	if rapid.IntRange(0, 14).Draw(t, "invalid") == 0 {
 		c.Invalid = true
 		c.Patterns = append(c.Patterns, rapid.SampledFrom(invalidPatterns).Draw(t, "invalid-pattern"))
@@ -229,6 +237,9 @@ func checkCase(t ev.T, test string, c Case) {
 	box := newBox(c.Backend)
 	defer box.Close()
 	src, dst, arch := box.Path("S"), box.Path("D"), box.Path("Z.zip")
+	if c.Arch != "" {
+		arch = box.Path(c.Arch)
+	}
 	var serr error
 	switch c.Root {
 	case "empty":
